@@ -180,6 +180,10 @@ func main() {
 		runC06(w, *seed, *maxLen, *n)
 		return
 	}
+	if *mode == "c18" {
+		runC18(w)
+		return
+	}
 	if *mode == "c17" {
 		runC17(w, *maxLen)
 		return
